@@ -68,6 +68,25 @@ CHECKS = {
 
 NOT_YET = {}
 
+
+# additions of the third session (rounds 8 and 9), appended to the level texts above
+ADD = {
+ "C01": " Completed sessions whose stored binding cannot be delivered through meet the failures of signing on purpose (D21); a share of the cases carries parameters and headers nobody asked for, named after every name the library's source mentions, and callbacks for sessions that have not completed carry all of those names set to each protocol value (status codes, bindings ...) in turn.",
+ "C02": " Consumer services with a ResponseLocation attribute and stored requests without consumer URL whose Destination / Issuer are foreign URLs are included.",
+ "C03": " A third of the callbacks carries foreign parameters named like the fields of the stored request (RelayState, consumer URL, binding ...).",
+ "C04": " Signed metadata is also asked for with every name of the library's source as a parameter and header (switch-like values); stored bindings that cannot be delivered through are included.",
+ "C05": " Validly signed redirect messages with RelayStates of NUL / non-UTF-8 / blank-padded bytes, attacker signatures whose KeyInfo holds no certificate, and redirect messages requested with POST are mutation families of their own.",
+ "C06": " An Issuer that names nobody while the registered requester is named elsewhere in the request, and an Issuer that reads differently in the single-byte encoding the document declares, are deviations of their own; a window that closes during a later storage call is counted, not judged.",
+ "C09": " The quick tier runs a share of the pairwise edits (every single edit on top of a deleted child of the document element), 24 content types incl. real multipart bodies.",
+ "C10": " Further fault kinds: the client goes away at the n-th storage call (context cancelled), errors whose text is long and multi-byte / full of format verbs / full of markup; every scenario is repeated with parameters and headers nobody asked for; the exported Readiness handler is driven with probe lists of 1..4 probes with every non-empty failing subset.",
+ "C12": " Queries whose requester goes away at the n-th storage call, requesters whose own metadata says WantAssertionsSigned=false, and queries of nobody that name a registered requester in the subject's qualifiers are included.",
+ "C13": " Instants at the ends of the representable range (year 1, the Unix epoch, 9999), RelayState pairs no encoder writes (raw ';', dangling '%') and requests without Issuer element that name a registered requester elsewhere are included.",
+ "C14": " Requests that are megabytes long themselves (padding compressing about 20:1, forms only) are included; every request runs under a cancellable context as under net/http.",
+ "C15": " After dozens of requests of other sessions have failed at one storage call (four at a time), healthy sessions must still be answered with Success.",
+ "C17": " The media type the page is sent with has to be text/html; a page whose first write stalls while another page is produced on the same provider, and 64 KiB runs of characters that are written as several, are included.",
+ "C19": " Field lines ending in an empty forwarded-pair, three-name header lists and malformed headers that name no host at all (precise clause) are included.",
+}
+
 def main():
     props = [json.loads(l) for l in open('/verif/properties.jsonl')]
     checks, na = [], []
@@ -82,7 +101,7 @@ def main():
                 "evidence_file": f"/verif/evidence/{pid}.json",
                 "replay_cmd_template": f"./check {pid} --replay {{path}}",
                 "engine": "verifh",
-                "level_claimed": {"category": lvl, "text": text, "design_ref": ref},
+                "level_claimed": {"category": lvl, "text": text + ADD.get(pid, ""), "design_ref": ref},
                 "level_note": note,
                 "technique": tech,
             })
